@@ -171,13 +171,14 @@ let run_wire () =
                  | RdCname n -> "CNAME:" ^ hex_of_bytes n
                  | RdOther (t, d) -> Printf.sprintf "OTHER:%s:%s" (sz t) (hex_of_bytes d)) in
                Printf.printf "r ok rest=%d name=%s ttl=%s data=%s\n" (List.length rest) (hex_of_bytes r.r_name) (sz r.r_ttl) d)
-      | ["emit"; i; fl; opc; nm; ty; bl] ->
+      | "emit" :: i :: fl :: opc :: nm :: ty :: bl :: rest ->
+          let fill = (match rest with f :: _ -> int_of_string f | [] -> 0) in
           let flags = z_of_int (int_of_string fl land int_of_z wdns_FLAGS_ALL) in
           let repr = { rp_transaction_id = zs i; rp_opcode = zs opc; rp_flags = flags;
                        rp_question = { q_name = bytes_of_hex nm; q_type = zs ty } } in
           let len = int_of_z (wdns_repr_buffer_len repr) in
           let blen = if bl = "auto" then len else int_of_string bl in
-          (match wdns_repr_emit repr (List.init blen (fun _ -> z_of_int 0)) with
+          (match wdns_repr_emit repr (List.init blen (fun _ -> z_of_int fill)) with
            | Ok b -> Printf.printf "e len=%d %s\n" len (hex_of_bytes b)
            | _ -> Printf.printf "e len=%d PANIC\n" len)
       | _ -> failwith ("bad wire op " ^ op)) ops)
